@@ -572,6 +572,31 @@ pub fn subs_for(id: &str) -> Vec<Sub> {
         "C02" => vec![sub(
             lp(
                 "C02",
+                "c02-layout-very-long",
+                "very long class: up to 800 registrations over 1..2 resources (nearly every system opens a new stage: more than 256 stages), half of them with 1..2 dependencies on earlier systems",
+                GenCfg {
+                    max_ops: 800,
+                    universe_max: 2,
+                    max_reads: 1,
+                    max_writes: 1,
+                    p_dep: 8,
+                    max_deps: 2,
+                    p_barrier: 0,
+                    p_batch: 0,
+                    p_tl: 0,
+                    p_static: 0,
+                    p_unnamed: 0,
+                    rt_skew: 0,
+                    ..GenCfg::default()
+                },
+                8000,
+                p_layout::o_c02,
+            ),
+            150,
+            4_000,
+        ), sub(
+            lp(
+                "C02",
                 "c02-layout-very-wide",
                 "very-wide class with dependencies: up to 150 mostly independent systems (stages with more than 64 groups), a quarter of them depending on earlier ones",
                 GenCfg {
@@ -766,6 +791,18 @@ pub fn subs_for(id: &str) -> Vec<Sub> {
                 ),
                 6_000,
                 150_000,
+            ),
+            sub(
+                lp(
+                    "C10",
+                    "c10-layout-many-resources",
+                    "many-resources class: up to 95 distinct resources in one builder of up to 40 systems",
+                    many_resources_cfg(),
+                    900,
+                    p_layout::o_c10,
+                ),
+                40_000,
+                1_000_000,
             ),
             sub(
                 lp(
